@@ -86,7 +86,7 @@ func (rc *recorder) do(op string, f func()) {
 	}
 }
 
-func encE(p *curve.EdwardsPoint) []byte  { b, _ := p.MarshalBinary(); return b }
+func encE(p *curve.EdwardsPoint) []byte   { b, _ := p.MarshalBinary(); return b }
 func encR(p *curve.RistrettoPoint) []byte { b, _ := p.MarshalBinary(); return b }
 func scb(s *scalar.Scalar) []byte         { var b [32]byte; s.ToBytes(b[:]); return b[:] }
 func feb(f *field.Element) []byte         { var b [32]byte; f.ToBytes(b[:]); return b[:] }
@@ -771,7 +771,7 @@ func workInternal(rc *recorder, rng *rand.Rand, scale int) {
 		var fe field.Element
 		b := mon.Bytes(rng, 32)
 		if i < 6 {
-			b = ref.LE32(big.NewInt(int64(i - 3)).Mod(big.NewInt(int64(i-3)), ref.P))
+			b = ref.LE32(big.NewInt(int64(i-3)).Mod(big.NewInt(int64(i-3)), ref.P))
 		}
 		fe.SetBytes(b)
 		rc.out("elligator.EdwardsFlavor", encE(elligator.EdwardsFlavor(&fe)))
